@@ -64,7 +64,12 @@ impl RespSpec {
     pub fn build(&self) -> Response {
         let v = if self.v11 { micro_http::Version::Http11 } else { micro_http::Version::Http10 };
         let mut r = Response::new(v, status_of(self.code));
-        for op in &self.ops {
+        Self::apply_ops(&mut r, &self.ops);
+        r
+    }
+    /// the builder calls `ops` on an existing response
+    pub fn apply_ops(r: &mut Response, ops: &[BOp]) {
+        for op in ops {
             match op {
                 BOp::Body(b) => r.set_body(micro_http::Body::new(b.clone())),
                 BOp::Type(j) => r.set_content_type(if *j {
@@ -80,7 +85,6 @@ impl RespSpec {
                 BOp::Len(l) => r.set_content_length(*l),
             }
         }
-        r
     }
     pub fn proto(&self) -> String {
         let ops: Vec<String> = self
